@@ -1,5 +1,5 @@
 import LitexProofs.Fhdl.StaticSound
-import LitexProofs.Fhdl.ModuleEquiv
+import LitexProofs.Fhdl.ModuleStep
 /-
   C01 — generated Verilog behaves exactly like the simulated FHDL design.
 
@@ -138,6 +138,78 @@ theorem sync_block_equiv_partial (wd : Nat → Nat) (ρ : Env) (d : SyncDom) (m 
     Rel wd ρ (execFs ρ d.stmts m) (execVs ρ (printStmts d.stmts) p) :=
   sync_block_equiv wd ρ d m p h hd hf hw
 
+/-! ## Layer 2 — modules
+
+  `StRel sigs aF aV`: the Verilog state `aV` holds, for every signal, the declared-width bit pattern of the
+  simulator's value in `aF`.  `GroupOk`/`DomOk`: the statements of a comb group / sync domain carry the declared
+  widths, have distinct case keys and satisfy `fitsSs` in the given state; a group printed as a continuous
+  `assign` is a single whole-signal assignment.  Combinational settling is, on both sides, re-evaluation until
+  nothing changes (`settleF` = `Simulator._commit_and_comb_propagate`; for Verilog a fair schedule of the event
+  queue).  Not covered by a theorem: the power-up state (the text's `reg x = init` initialisers equal `Signal.reset`
+  except for `output reg` ports and `wire`s, which carry none — checked by the correspondence, see findings). -/
+
+/-- One comb evaluation + commit of the printed module = one `execute(comb)` + `commit` of the simulator. -/
+theorem module_comb_step_equiv_partial (f : FModule) (aF aV : Array Int) (h : StRel f.sigs aF aV)
+    (hg : ∀ g ∈ f.comb, GroupOk f.sigs (envA aF) g) :
+    StRel f.sigs (iterF f aF) (iterV f.sigs (printModule f) aV) :=
+  stRel_iter f aF aV h hg
+
+/-- Comb settling: if the simulator's propagation loop reaches its fix-point within `fuel` rounds (acyclic comb
+    logic does), the printed module settles in the corresponding state. -/
+theorem module_settle_equiv_partial (f : FModule) (fuel : Nat) (aF aV : Array Int) (h : StRel f.sigs aF aV)
+    (hok : SettleOk f fuel aF) (hfix : iterF f (settleF f fuel aF) = settleF f fuel aF) :
+    StRel f.sigs (settleF f fuel aF) (settleV f.sigs (printModule f) fuel aV) :=
+  stRel_settle f fuel aF aV h hok hfix
+
+/-- Clock edge: `always @(posedge clk)` blocks of the ticking domains = `execute(sync[cd])` + `commit`. -/
+theorem module_edge_equiv_partial (f : FModule) (aF aV : Array Int) (clks : List Nat) (h : StRel f.sigs aF aV)
+    (hd : ∀ d ∈ sortDoms f.sync, DomOk f.sigs (envA aF) d) :
+    StRel f.sigs (commitF aF (syncPassF f aF clks)) (commitV f.sigs aV (syncPassV (printModule f) aV clks)) :=
+  stRel_sync f aF aV clks h hd
+
+/-- **module_step_equiv_partial** — the property itself for the modelled subset: for EVERY input sequence and
+    every choice of ticking clocks (`cs : List Cycle`), from any pair of corresponding states, the printed module
+    and the simulator pass, cycle for cycle, through corresponding settled states — all ports, registers and
+    internal signals — provided the side conditions hold along the simulator's run (`RunOk`). -/
+theorem module_step_equiv_partial (f : FModule) (fuel : Nat) (cs : List Cycle) (aF aV : Array Int)
+    (h : StRel f.sigs aF aV) (hok : RunOk f fuel aF cs) :
+    List.Forall₂ (StRel f.sigs) (runF f fuel aF cs) (runV f.sigs (printModule f) fuel aV cs) :=
+  run_equiv f fuel cs aF aV h hok
+
+/-! Non-vacuity of the module theorem: a 4-bit counter `r` with `assign c = r[3]`, two clock cycles from
+    reset; all hypotheses hold and both sides really move. -/
+
+def exF : FModule :=
+  { sigs := #[⟨4, false, 0, "r"⟩, ⟨1, false, 0, "c"⟩, ⟨1, false, 0, "clk"⟩],
+    comb := [{ targets := [1], stmts := .cons (.assign (.sig 1 1 false) (.slice (.sig 0 4 false) 3 4)) .nil }],
+    sync := [{ name := "sys", clk := 2,
+               stmts := .cons (.assign (.sig 0 4 false) (.op2 .add (.sig 0 4 false) (.const 1 1 false))) .nil }] }
+
+def exCycles : List Cycle := [⟨[], [2]⟩, ⟨[], [2]⟩]
+
+example : RunOk exF 2 (initF exF) exCycles := by
+  have hG : ∀ (a : Array Int),
+      fitsSs (envA a) (.cons (.assign (.sig 1 1 false) (.slice (.sig 0 4 false) 3 4)) .nil) = true →
+      ∀ g ∈ exF.comb, GroupOk exF.sigs (envA a) g := by
+    intro a h g hg
+    simp only [exF, List.mem_singleton] at hg
+    subst hg
+    exact ⟨by simp [wfSEs, wfSE, wfE, wdOf, widthOf, exF], by simp [distinctSs, distinctS], h, by decide,
+      Or.inr ⟨1, 1, false, _, rfl, rfl⟩⟩
+  have hD : ∀ (a : Array Int),
+      fitsSs (envA a) (.cons (.assign (.sig 0 4 false) (.op2 .add (.sig 0 4 false) (.const 1 1 false))) .nil) = true →
+      ∀ d ∈ sortDoms exF.sync, DomOk exF.sigs (envA a) d := by
+    intro a h d hd
+    simp only [exF, sortDoms, insertDom, List.mem_singleton] at hd
+    subst hd
+    exact ⟨by simp [wfSEs, wfSE, wfE, wdOf, widthOf, exF], by simp [distinctSs, distinctS], h⟩
+  simp only [exCycles, RunOk, SettleOk]
+  exact ⟨⟨hG _ (by decide +kernel), hG _ (by decide +kernel), trivial⟩, by decide +kernel, hD _ (by decide +kernel),
+    ⟨hG _ (by decide +kernel), hG _ (by decide +kernel), trivial⟩, by decide +kernel, hD _ (by decide +kernel), trivial⟩
+
+example : runF exF 2 (initF exF) exCycles = [#[0, 0, 0], #[1, 0, 0]] := by decide +kernel
+example : runV exF.sigs (printModule exF) 2 #[0, 0, 0] exCycles = [#[0, 0, 0], #[1, 0, 0]] := by decide +kernel
+
 /-- Non-vacuity of the block theorem: `if (a[3]) r[7:4] <= b; case (a[1:0]) 2: r <= r + 1; 0: r[0] <= 1`
     (items unsorted) satisfies all hypotheses in a concrete state, and both sides really schedule updates. -/
 example :
@@ -195,6 +267,12 @@ example :
 
 example : (printE (.op2 .lt (.sig 0 8 true) (.const (-1) 1 true))).1 =
     .bin .lt (.id 0 8 true) (.un .neg (.lit 1 false 1)) := rfl
+
+/-- Why the obvious repair of F6 (`-4'sd8` instead of `-4'd8`) would be wrong: the most negative value of a
+    width, extended to a wider signed context, negates to the POSITIVE value (`-4'sd8` in 8 bits is +8);
+    printing the two's-complement pattern (`4'sd8`, i.e. 1000 = −8) is right in every context. -/
+example : evalV (fun _ => 0) 8 true (.un .neg (.lit 4 true 8)) = 8 ∧
+          evalV (fun _ => 0) 8 true (.lit 4 true 8) = tn 8 (-8) := by decide
 
 /-- Printer sign flag of a comparison (`s1 or s2`) is wrong (Verilog: unsigned): `(a < b) + c`, all signed
     8 bit, into 16 bits with c = −1, a ≥ b: simulator 0xFFFF, Verilog 0x00FF (c is zero-extended). -/
